@@ -2979,6 +2979,16 @@ def oracle_campaign(ctx, n_hist, n_chunk, n_zero, n_mag, n_fun, long_cases, n_ti
         k0 = 0 if r < 0.3 else gen_skip(ctx.rng)
         cfg.update({'k0': min(k0, 10 ** 10 - total - 2), 'chunks': chunks})
         run_oracle(ctx, 'generate_more_samples.chunking', cfg)
+    # R14 (scale in the WORK of one call): single requests whose L x entries x samples exceeds 2^21, 2^22 terms
+    # (a generator that evaluates big requests block by block must number the samples of every block correctly)
+    for L, shape, total, k0 in ((16, [4, 4], 8200, 0), (8, [2, 2], 131100, 12345), (4, None, 1050000, 7)) \
+            if ctx.tier == 'quick' else ((16, [4, 4], 8200, 0), (16, [4, 4], 33000, 5), (8, [2, 2], 131100, 12345),
+                                         (4, None, 1050000, 7), (1, None, 4200000, 0), (20, [3], 70000, 99)):
+        third = total // 3
+        cfg = {'Fd': 37.5, 'Ts': 1e-4, 'L': L, 'shape': shape, 'seed': 20260930 + total, 'k0': k0,
+               'chunks': [['g', third], ['s', 5], ['g', total - 2 * third - 5], ['g', third]]}
+        run_oracle(ctx, 'generate_more_samples.chunking', cfg)
+        ctx.branch('oracle:R14:single-request-above-2^21-terms')
     for _ in range(n_zero):
         cfg = gen_config(ctx.rng, zero_fd=True)
         cfg['ops'] = [o for o in gen_ops(ctx.rng, cfg, ctx.rng.randint(2, 8), with_shape=False)]
@@ -3136,7 +3146,7 @@ def check(ctx):
                 'then small requests; robustness families R15 (close-but-distinct Fd / Ts sets, margins from the reference) and R16 (argument buffers refilled in place); robustness families R1..R7 (typed sizes crossing the range of each integer type, typed parameters and shapes, phase layouts, rejected calls, boundary sizes/shapes, rescaled time axis, life cycle); histories of 1e3..3e4 requests of 1..4 samples; every history of <= 3 (quick) / 4 (thorough) requests over a 9-letter alphabet; non-trivial = distinct history with >= 2 requests / distinct value probe '
                 'whose tolerance is < 1e-6 / distinct oracle case')
     core.prove(ctx, MODULE, generated=[], drivers=[DRIVER], scratch=ctx.scratch)
-    ctx.required_branches = ['op:gen', 'op:gen-default', 'op:skip', 'op:set-shape', 'shape:none', 'shape:int',
+    ctx.required_branches = ['oracle:R14:single-request-above-2^21-terms', 'op:gen', 'op:gen-default', 'op:skip', 'op:set-shape', 'shape:none', 'shape:int',
                              'long-run-request(k>=2^21)', 'position>=1e9', 'value-tol<1e-6', 'Fd=0',
                              'magnitude:at-bound', 'oracle:long-run', 'corpus', 'tiny-request-history',
                              'oracle:tiny-request-history'] + ROBUST_BRANCHES + ROBUST2_BRANCHES + ROBUST3_BRANCHES
